@@ -546,6 +546,8 @@ pub fn run_c12(ctx: &Ctx) -> i32 {
     slow_body_scenarios(&shared, ctx.thorough());
     // requests pipelined behind a flush of a small / big store
     flush_order_scenarios(ctx, &shared);
+    // a connection the server gives up on is closed and nothing else
+    idle_close_scenarios(&shared);
     shared.into_inner().unwrap().finish()
 }
 
@@ -836,8 +838,77 @@ pub fn flush_order_scenarios(ctx: &Ctx, shared: &Mutex<Evidence>) {
         e.nontrivial.insert(fnv(format!("flushorder:{}", o.name).as_bytes()));
         if !o.problems.is_empty() {
             e.violation(
-                Viol::new(&["C12", "C08", "C01"], "flush-out-of-order", format!("{}: requests pipelined behind the flush were not executed after it: {}", o.name, o.problems.join("; "))),
+                Viol::new(if o.name.starts_with("flushq") { &["C12", "C08", "C01", "C19"] } else { &["C12", "C08", "C01"] }, "flush-out-of-order", format!("{}: requests pipelined behind the flush were not executed after it: {}", o.name, o.problems.join("; "))),
                 json!({"engine":"pipe-flush-order","scenario":o.name,"problems":o.problems,"answers":o.answers}),
+            );
+        }
+    }
+}
+
+/// A connection the server gives up on (idle, or stalled inside a request, for longer than the receive timeout)
+/// is closed - and nothing else: every frame a client ever receives answers one of its requests, so whatever is
+/// read before the end of the stream must be exactly the responses owed.
+pub fn idle_close_scenarios(shared: &Mutex<Evidence>) {
+    let mut outs: Vec<(String, Vec<String>, Vec<String>, End)> = vec![];
+    std::thread::scope(|s| {
+        let hs: Vec<_> = (0..4usize)
+            .map(|kind| {
+                s.spawn(move || -> Option<(String, Vec<String>, Vec<String>, End)> {
+                    use std::io::Write;
+                    let srv = Server::start(SrvCfg { idle_s: 1, workers: if kind % 2 == 0 { None } else { Some(2) }, ..Default::default() }).ok()?;
+                    let mut c = Cli::connect(srv.port).ok()?;
+                    let mut want: Vec<String> = vec![];
+                    let name = match kind {
+                        0 => {
+                            "idle from the start".to_string()
+                        }
+                        1 => {
+                            let f = wire::simple(op::NOOP, 0x1000_0001);
+                            c.s.write_all(&f.encode()).ok()?;
+                            want.push(format!("{}#{:x}", op::name(op::NOOP), 0x1000_0001u32));
+                            "idle after an answered noop".to_string()
+                        }
+                        2 => {
+                            let f = wire::store(op::SET, b"idle-k", &vec![b'v'; 300], 0, 0, 0x1000_0002, 0).encode();
+                            c.s.write_all(&f[..24 + 100]).ok()?;
+                            "stalled inside the body of a set".to_string()
+                        }
+                        _ => {
+                            let mut b = wire::store(op::SETQ, b"idle-q", b"v", 0, 0, 0x1000_0003, 0).encode();
+                            b.extend(wire::get(op::GETQ, b"idle-missing", 0x1000_0004).encode());
+                            c.s.write_all(&b).ok()?;
+                            "idle after quiet commands that owe nothing".to_string()
+                        }
+                    };
+                    let end = c.read_to_end(Duration::from_secs(6));
+                    let got: Vec<String> = parse_prefix(&c.rx).iter().map(|r| format!("{}#{:x}", op::name(r.opcode), r.opaque)).collect();
+                    let complete: usize = parse_prefix(&c.rx).iter().map(|r| 24 + r.extras.len() + r.key.len() + r.value.len()).sum();
+                    let mut got = got;
+                    if complete != c.rx.len() {
+                        got.push(format!("+{} stray bytes", c.rx.len() - complete));
+                    }
+                    Some((name, want, got, end))
+                })
+            })
+            .collect();
+        for h in hs {
+            if let Ok(Some(o)) = h.join() {
+                outs.push(o);
+            }
+        }
+    });
+    let mut e = shared.lock().unwrap();
+    for (name, want, got, end) in outs {
+        e.evaluations += 1;
+        e.count("idle_close:scenarios", 1);
+        e.nontrivial.insert(fnv(format!("idle-close:{}", name).as_bytes()));
+        if end == End::Open {
+            e.count("idle_close:still_open_after_6s", 1);
+        }
+        if got != want {
+            e.violation(
+                Viol::new(&["C11", "C12"], "unsolicited-frame", format!("connection {} (receive timeout 1 s): received {:?} before the end of the stream ({:?}), owed {:?}", name, got, end, want)),
+                json!({"engine":"idle-close","scenario":name,"received":got,"owed":want}),
             );
         }
     }
@@ -1427,6 +1498,9 @@ pub fn run_sock_frames(ctx: &Ctx) -> i32 {
     });
     if matches!(ctx.prop.as_str(), "C09" | "C13" | "C11") && ctx.only_case.is_none() {
         slow_body_scenarios(&shared, ctx.thorough());
+    }
+    if matches!(ctx.prop.as_str(), "C11") && ctx.only_case.is_none() {
+        idle_close_scenarios(&shared);
     }
     shared.into_inner().unwrap().finish()
 }
